@@ -36,7 +36,7 @@ ASSUMPTIONS = [
 	"ties: any maximising (offset, overlap) is accepted; equal strand scores "
 	"may report either strand",
 ]
-REQUIRED = {"pairs_judged": 200, "pairs_query_longer": 20,
+REQUIRED = {"corner_calls": 5, "pairs_judged": 200, "pairs_query_longer": 20,
 	"pairs_query_shorter": 20, "monotonicity_pairs": 1000,
 	"self_matches": 5, "rc_swaps": 5}
 TECHNIQUE = ("runtime monitoring: independent complete-score reference "
@@ -225,6 +225,14 @@ def run_case(cls, params, rec):
 		Qs[1] = make_pwm(nr, r, r.choice([15, 25]), grid)
 		Ts[1] = make_pwm(nr, r, r.choice([1, 2, 4]), grid)
 	kind = params["kind"]
+	if kind == "corner":
+		# very short coarse-grid queries: alignment scores of 0, mass in the
+		# lowest score bin, offsets equal to n_score_bins
+		for qi in range(len(Qs)):
+			Qs[qi] = make_pwm(nr, r, r.choice([1, 1, 2, 3]), "coarse")
+		for ti in range(len(Ts)):
+			Ts[ti] = make_pwm(nr, r, r.randint(1, 12), "coarse")
+		rec.count("corner_calls")
 	if kind == "palindrome" and len(Ts) > 2:
 		h = make_pwm(nr, r, r.randint(2, 8), grid)
 		Ts[2] = numpy.ascontiguousarray(numpy.concatenate([h, rc(h)], axis=1))
@@ -329,7 +337,8 @@ def gen_params(seed, k):
 		"n_t": r.randint(1, 10), "rc": r.random() < 0.6,
 		"n_score_bins": r.choice([10, 25, 50, 100, 100, 200]),
 		"grid": r.choice(["fine", "fine", "coarse"]),
-		"kind": ["plain", "self", "rcswap", "hashing", "palindrome"][k % 5],
+		"kind": ["plain", "self", "rcswap", "hashing", "palindrome",
+			"corner"][k % 6],
 		"n_target_bins": r.choice([100, 20, 1000])}
 
 
@@ -354,5 +363,9 @@ def run_unit(unit, rec):
 		params = gen_params(unit["seed"], k)
 		if params["kind"] == "rcswap":
 			params["rc"] = True
+		if params["kind"] == "corner":
+			r = gen.pyrng("C14corner", unit["seed"], k)
+			params["n_score_bins"] = r.choice([10, 50, 100, 200, 200])
+			params["grid"] = "coarse"
 		run_case("tomtom-" + params["kind"] + ("-boundscheck" if bc else ""),
 			params, rec)
